@@ -4,7 +4,7 @@ from . import dsllib as D
 PROPERTY = "C15"
 DRIVER = "TraitsVerif/Driver/Dsl.lean"
 PROPS_MODULES = ["TraitsVerif.Props.C15"]
-TRANSLATORS = ["grammar"]
+TRANSLATORS = ["grammar", "dslprog", "parsertables"]
 RULE = ("exhaustive: every string of <= 4 (quick) / <= 6 (thorough) symbols over the 11-symbol alphabet "
         "{a b items +m * . : , [ ] space}; seeded random derivations of the grammar up to depth 6 with "
         "redundant brackets and random blanks (space, tab, newline, CR, FF), a share of them with non-ASCII "
@@ -16,6 +16,9 @@ RULE = ("exhaustive: every string of <= 4 (quick) / <= 6 (thorough) symbols over
         "the LIST form observe(handler, [item, ...]) / @observe([...]) / Property(observe=[...]) with 0-5 items drawn "
         "from the valid texts (with and without '*'), near-misses, halves of a bracketed text split at a comma and "
         "ObserverExpression items, against 'rejected iff some item is rejected, else the union of the items'; "
+        "LONG expressions (chains of 60-300 elements of '.', ':', ',' and mixtures, parallel groups of series, brackets "
+        "nested 60-200 deep: redundant, right-nested, left-nested, 60-200 branches below a series; lengths drawn from "
+        "the rng, half of them powers of two and their neighbours) rendered from derivation trees; "
         "pairs of spellings (blanks / redundant brackets / re-association / swapped branches / perturbed) for "
         "expression and graph equality; a case is non-trivial when it compiled or compared, distinct = "
         "distinct canonical output line")
@@ -82,6 +85,7 @@ def generate(rng, tier):
     else:   # intense
         nex, nd, nf, ne, nm = 5, 30000, 20000, 5000, 3000
     yield from _m_cases(rng, nm)
+    yield from _long_cases(rng, {"quick": 48, "thorough": 600}.get(tier, 200))
     nl = {4: 1500, 6: 30000}.get(nex, 10000)
     for s in D.exhaustive(nex):
         yield D.case_c(s)
@@ -110,6 +114,76 @@ def generate(rng, tier):
             u = D.tree_tokens(D.perturb(rng, t))
         u_text = D.decorate(rng, u, 0.3) if rel == "ws" or rng.random() < 0.3 else "".join(u)
         yield D.case_eq(s, u_text, rel)
+
+
+LONG_LENGTHS = [63, 64, 65, 127, 128, 129, 255, 256, 257]
+
+
+def _long_len(rng, lo, hi):
+    """A length in [lo, hi]: half of the time a power of two or its neighbour."""
+    c = [n for n in LONG_LENGTHS if lo <= n <= hi]
+    return rng.choice(c) if c and rng.random() < 0.5 else rng.randint(lo, hi)
+
+
+def _long_cases(rng, n):
+    """LONG expressions rendered from derivation trees: chains of 60-300 elements of each
+    connector ('.', ':', mixed, ','), parallel groups of series, brackets nested 60-200 deep
+    (redundant, right-nested series, left-nested groups).  The acceptance / parser theorems
+    are unbounded in length and depth; CPython's recursion limit is reached at ~480 elements
+    (ASSUMPTIONS), so the stream stays at or below 300."""
+    names = ["a", "b", "c", "x1", "_y", "name"]
+    for i in range(n):
+        kind = ["ser.", "ser:", "ser-mixed", "par", "par-of-ser", "brackets-redundant", "brackets-right",
+                "brackets-left", "group-below-series"][i % 9]
+        el = lambda: rng.choice(names) if rng.random() < 0.9 else rng.choice(["+m", "+sync"])  # noqa: E731
+        toks = []
+        if kind.startswith("ser"):
+            k = _long_len(rng, 60, 300)
+            conn = {"ser.": ".", "ser:": ":"}.get(kind)
+            for j in range(k):
+                if j:
+                    toks.append(conn or rng.choice(".:"))
+                toks.append(el())
+            if rng.random() < 0.3:
+                toks[-1] = "*"
+        elif kind == "par":
+            k = _long_len(rng, 60, 300)
+            for j in range(k):
+                if j:
+                    toks.append(",")
+                toks.append(el() if rng.random() < 0.95 else "*")
+        elif kind == "par-of-ser":
+            k = _long_len(rng, 60, 150)
+            for j in range(k):
+                if j:
+                    toks.append(",")
+                toks += [el(), rng.choice(".:"), el()]
+        elif kind == "brackets-redundant":
+            d = _long_len(rng, 60, 200)
+            toks = ["["] * d + [el(), rng.choice(".:,"), el()] + ["]"] * d
+        elif kind == "brackets-right":          # a.[b:[c.[ ... ]]]
+            d = _long_len(rng, 60, 200)
+            for j in range(d):
+                toks += [el(), rng.choice(".:"), "["]
+            toks += [el()] + ["]"] * d
+        elif kind == "brackets-left":           # [[[a,b].c,d]:e ...]
+            d = _long_len(rng, 60, 200)
+            toks = ["["] * d + [el()]
+            for j in range(d):
+                toks += [rng.choice(".:,"), el(), "]"]
+        else:                                   # x.[a1, a2, ...]: many (partly equal) branches below a series
+            k = _long_len(rng, 60, 200)
+            toks = [el(), rng.choice(".:"), "["]
+            for j in range(k):
+                if j:
+                    toks.append(",")
+                toks.append(rng.choice(names) + (str(j % 97) if rng.random() < 0.8 else ""))
+            toks.append("]")
+        flat = []
+        for t in toks:      # "+m" is two tokens
+            flat += ["+", t[1:]] if t.startswith("+") else [t]
+        text = D.decorate(rng, flat, rng.choice([0.0, 0.0, 0.1])) if flat else ""
+        yield D.case_c(text)
 
 
 M_PREFIXES = ["", "child:", "child.", "children:items:", "children.items.", " child : ", "[child]:"]
@@ -344,6 +418,12 @@ def _run_c(text):
             tags.add("has:" + tag)
     if any(ord(ch) >= 128 for ch in text):
         tags.add("has:non-ascii-name")
+    nconn = sum(text.count(ch) for ch in ".:,")
+    if nconn >= 59 or text.count("[") >= 60:
+        tags.add("long:elements-%s" % ("60-127" if nconn < 127 else "128-255" if nconn < 255 else "256+")
+                 if nconn >= 59 else "long:brackets-only")
+        if text.count("[") >= 60:
+            tags.add("long:bracket-depth-60+")
     if graphs is None:
         sig, what = _classify_rejected(text, info, real_exc)
         tags.add("rejected:" + sig.split(":")[-1])
@@ -373,7 +453,8 @@ def _run_c(text):
                 and D.show_graphs(fresh_graphs) == out[3:]):
             hits.append(_hit("reparse-differs", "parsing the same text twice gives different patterns", text=text))
         # ---- cached objects are not mutated by use
-        if len(expected) <= 64:
+        # (long chains: acceptance and meaning only - walking a 100+ level pattern over real objects takes minutes)
+        if len(expected) <= 64 and not any(t.startswith("long:") for t in tags):
             obj = _probe_object()
             handler = _noop
             for remove in (False, True):
